@@ -200,6 +200,213 @@ Example C16_phantom_level :
    (nth 3 evs ENone, queue_sizes (sq s))) = (ENoMore, []).
 Proof. vm_compute. split; reflexivity. Qed.
 
+(* ------------------------------------------------------------------------
+   NON-VACUITY (audit): every theorem APPLIED to a pack with one inferral strategy, two initial
+   strategies and two non-empty expansion sets, and a history over three labels: 7 (added twice, gets
+   all its work), 8 (told to stop while waiting in `working`), 9 (marked not-inferrable before it is
+   added), 11 packets handed out, one level change, then StopIteration. *)
+Definition qinf : list Z := [1%Z].
+Definition qini : list Z := [2%Z; 3%Z].
+Definition qexp : list (list Z) := [[4%Z; 5%Z]; [6%Z]].
+Definition qops1 : list op := [OAdd 7; OAdd 8; OAdd 7; ONext; ONext].
+Definition qops2 : list op :=
+  [ONotInf 9; OAdd 9; ONext; ONext; ONext; ONext; ONext; ONext; ONext; ONext; ONext].
+Definition qops : list op := qops1 ++ OStop 8 :: qops2.
+Notation qrun ops := (exec qinf qini qexp (init_state qexp) ops).
+Notation qnext := (next qinf qini qexp).
+Definition qfinal : state := fst (qrun qops).
+Definition qevs : list event := snd (qrun qops).
+Lemma qrun_eq : qrun qops = (qfinal, qevs).
+Proof. unfold qfinal, qevs. destruct (qrun qops); reflexivity. Qed.
+Example qevs_handed :
+  map (fun p => (p_label p, p_strats p, p_inf p)) (handed qevs) =
+  [(7, [1], true); (7, [2], false); (7, [3], false); (9, [2], false); (9, [3], false);
+   (7, [4], false); (7, [5], false); (9, [4], false); (9, [5], false); (7, [6], false); (9, [6], false)]%Z /\
+  length qevs = 17 /\ nth 16 qevs ENone = EPacket (mkp 9 [6%Z] false).
+Proof. vm_compute. repeat split. Qed.
+Lemma qfinal_drained : qnext (sq qfinal) = (RStop, snd (qnext (sq qfinal))).
+Proof. vm_compute; reflexivity. Qed.
+(* a state in the middle of the history: 8 stopped, 9 just added, work staged *)
+Definition qmid : queue := sq (fst (qrun (qops1 ++ OStop 8 :: firstn 3 qops2))).
+
+(* covers C16_next_terminates (closed statement): on the mid-history state next hands out a packet;
+   the conclusion is not trivially true of next_fuel: with too little fuel the answer IS RFuel *)
+Example C16_next_terminates_nonvacuous :
+  match fst (qnext qmid) with RPacket _ | RStop => True | RAssert | RFuel => False end /\
+  fst (qnext qmid) = RPacket (mkp 9 [2%Z] false) /\
+  fst (next_fuel qinf qini qexp 1 (sq (fst (qrun [OAdd 7])))) = RFuel.
+Proof.
+  split; [exact (C16_next_terminates qinf qini qexp qmid)|]. split; vm_compute; reflexivity.
+Qed.
+
+Example C16_fuel_irrelevant_nonvacuous :
+  next_fuel qinf qini qexp (fuel_of qmid + 5) qmid = qnext qmid /\
+  next_fuel qinf qini qexp 1 (sq (fst (qrun [OAdd 7]))) <> qnext (sq (fst (qrun [OAdd 7]))).
+Proof.
+  split; [apply (C16_fuel_irrelevant qinf qini qexp qmid (fuel_of qmid + 5)); lia|].
+  vm_compute. discriminate.
+Qed.
+
+Example C16_history_total_nonvacuous :
+  length qevs = length qops /\ Forall (fun e => e <> EAssert /\ e <> EFuel) qevs.
+Proof. exact (C16_history_total qinf qini qexp qops qfinal qevs qrun_eq). Qed.
+
+(* label 8 was added and is waiting in `working` when it is told to stop; 10 packets are handed out
+   afterwards, none for 8 *)
+Example C16_never_ignored_nonvacuous :
+  (forall p, In p (handed (skipn (S (length qops1)) qevs)) -> p_label p <> 8%Z) /\
+  length (handed (skipn (S (length qops1)) qevs)) = 9 /\
+  working (sq (fst (qrun qops1))) = [8%Z; 7%Z].
+Proof.
+  split; [|split; vm_compute; reflexivity].
+  exact (C16_never_ignored qinf qini qexp qops1 (OStop 8) qops2 8%Z qfinal qevs (or_introl eq_refl) qrun_eq).
+Qed.
+
+Example C16_never_ignored_state_nonvacuous :
+  exists s evs p q',
+    qrun (qops1 ++ OStop 8 :: firstn 3 qops2) = (s, evs) /\ qnext (sq s) = (RPacket p, q') /\
+    p = mkp 9 [2%Z] false /\ ignore (sq s) = [8%Z] /\
+    ~ In (p_label p) (ignore q') /\ ~ In (p_label p) (ignore (sq s)).
+Proof.
+  eexists; eexists; eexists; eexists.
+  split; [vm_compute; reflexivity|]. split; [vm_compute; reflexivity|].
+  split; [reflexivity|]. split; [reflexivity|].
+  eapply (C16_never_ignored_state qinf qini qexp (qops1 ++ OStop 8 :: firstn 3 qops2)); vm_compute; reflexivity.
+Qed.
+
+(* mid-history (14 operations): label 7 is on the all_work branch, label 9 on the noinf_work branch -
+   and only there: its first packet is an initial one, so what it got is not a prefix of all_work *)
+Definition qops_mid : list op := firstn 14 qops.
+Example C16_order_nonvacuous :
+  (prefix (fl 7%Z (handed (snd (qrun qops_mid)))) (all_work qinf qini qexp 7%Z) \/
+   prefix (fl 7%Z (handed (snd (qrun qops_mid)))) (noinf_work qini qexp 7%Z)) /\
+  (prefix (fl 9%Z (handed (snd (qrun qops_mid)))) (all_work qinf qini qexp 9%Z) \/
+   prefix (fl 9%Z (handed (snd (qrun qops_mid)))) (noinf_work qini qexp 9%Z)).
+Proof.
+  split.
+  - apply (C16_order qinf qini qexp qops_mid (fst (qrun qops_mid)) (snd (qrun qops_mid)) 7%Z).
+    destruct (qrun qops_mid); reflexivity.
+  - apply (C16_order qinf qini qexp qops_mid (fst (qrun qops_mid)) (snd (qrun qops_mid)) 9%Z).
+    destruct (qrun qops_mid); reflexivity.
+Qed.
+Example C16_order_branches :
+  map p_strats (fl 7%Z (handed (snd (qrun qops_mid)))) = [[1]; [2]; [3]; [4]; [5]]%Z /\
+  map p_strats (fl 9%Z (handed (snd (qrun qops_mid)))) = [[2]; [3]; [4]]%Z /\
+  map p_strats (all_work qinf qini qexp 9%Z) = [[1]; [2]; [3]; [4]; [5]; [6]]%Z /\
+  map p_strats (noinf_work qini qexp 9%Z) = [[2]; [3]; [4]; [5]; [6]]%Z /\
+  ~ prefix (fl 9%Z (handed (snd (qrun qops_mid)))) (all_work qinf qini qexp 9%Z) /\
+  ~ prefix (fl 7%Z (handed (snd (qrun qops_mid)))) (noinf_work qini qexp 7%Z).
+Proof.
+  split; [vm_compute; reflexivity|]. split; [vm_compute; reflexivity|].
+  split; [vm_compute; reflexivity|]. split; [vm_compute; reflexivity|].
+  split; intros (r & H); vm_compute in H; discriminate.
+Qed.
+
+Lemma qpack_nodup : NoDup (qini ++ concat qexp).
+Proof. repeat constructor; simpl; intuition discriminate. Qed.
+Example C16_no_duplicate_nonvacuous : NoDup (handed qevs) /\ length (handed qevs) = 11.
+Proof.
+  split; [exact (C16_no_duplicate qinf qini qexp qpack_nodup qops qfinal qevs qrun_eq)|vm_compute; reflexivity].
+Qed.
+(* near miss: with a strategy occurring in two expansion sets the same packet IS handed out twice *)
+Example C16_no_duplicate_near_miss :
+  let evs := snd (exec [] [] [[4%Z]; [4%Z]] (init_state [[4%Z]; [4%Z]]) [OAdd 7; ONext; ONext]) in
+  handed evs = [mkp 7 [4%Z] false; mkp 7 [4%Z] false].
+Proof. vm_compute; reflexivity. Qed.
+
+(* drained: label 7 (left branch) got all its work, label 9 (right branch, marked not-inferrable) all
+   but the inferral packet; label 8 is excluded by the hypothesis (stopped) and got nothing *)
+Example C16_complete_when_drained_nonvacuous :
+  (fl 7%Z (handed qevs) = all_work qinf qini qexp 7%Z \/
+   (In 7%Z (notinf qops) /\ fl 7%Z (handed qevs) = noinf_work qini qexp 7%Z)) /\
+  (fl 9%Z (handed qevs) = all_work qinf qini qexp 9%Z \/
+   (In 9%Z (notinf qops) /\ fl 9%Z (handed qevs) = noinf_work qini qexp 9%Z)).
+Proof.
+  split.
+  - apply (C16_complete_when_drained qinf qini qexp qops qfinal qevs _ qrun_eq qfinal_drained 7%Z).
+    + vm_compute; auto.
+    + vm_compute. intros [H|[]]; discriminate.
+  - apply (C16_complete_when_drained qinf qini qexp qops qfinal qevs _ qrun_eq qfinal_drained 9%Z).
+    + vm_compute; auto.
+    + vm_compute. intros [H|[]]; discriminate.
+Qed.
+Example C16_complete_when_drained_branches :
+  fl 7%Z (handed qevs) = all_work qinf qini qexp 7%Z /\ ~ In 7%Z (notinf qops) /\
+  fl 9%Z (handed qevs) = noinf_work qini qexp 9%Z /\ fl 9%Z (handed qevs) <> all_work qinf qini qexp 9%Z /\
+  fl 8%Z (handed qevs) = [] /\ In 8%Z (added qops) /\ In 8%Z (stopped qops).
+Proof.
+  split; [vm_compute; reflexivity|]. split; [vm_compute; intros [H|[]]; discriminate|].
+  split; [vm_compute; reflexivity|]. split; [vm_compute; discriminate|].
+  split; [vm_compute; reflexivity|]. split; vm_compute; auto.
+Qed.
+
+Example C16_stop_again_nonvacuous :
+  qnext (snd (qnext (sq qfinal))) = (RStop, snd (qnext (sq qfinal))).
+Proof. exact (C16_stop_again qinf qini qexp (sq qfinal) _ qfinal_drained). Qed.
+
+Definition qmore : list op := [ONext; OStop 7; ODoLevel; OLevelNext; ONotInf 3; ONext; OVerified 9; OLevelNext].
+Example C16_exhaustion_stable_nonvacuous :
+  let r := exec qinf qini qexp (mks (snd (qnext (sq qfinal))) GFresh) qmore in
+  handed (snd r) = [] /\
+  Forall2 (fun o e => o = ONext -> e = EStopIteration) qmore (snd r) /\
+  snd r = [EStopIteration; ENone; ENone; ENoMore; ENone; EStopIteration; ENone; EGenStop].
+Proof.
+  intros r.
+  destruct (C16_exhaustion_stable qinf qini qexp qops qfinal qevs _ GFresh qmore (fst r) (snd r)
+              qrun_eq qfinal_drained) as (H1 & H2).
+  - repeat constructor.
+  - exact (surjective_pairing r).
+  - split; [exact H1|split; [exact H2|vm_compute; reflexivity]].
+Qed.
+
+(* do_level, the four cases: packet; queue runs dry at the captured level (NoMoreClassesToExpandError);
+   level counter advanced when next raises StopIteration (a level made of a stopped label only);
+   counter already moved on *)
+Lemma triple_eta {A B C} (r : A * B * C) : r = (fst (fst r), snd (fst r), snd r).
+Proof. destruct r as [[a b] c]; reflexivity. Qed.
+Definition qd1 : queue := sq (fst (qrun [OAdd 7; OAdd 9])).
+Definition qd3 : queue := sq (fst (qrun [OStop 8; OAdd 8])).
+Example C16_do_level_nonvacuous :
+  (exists p q', qnext qd1 = (RPacket p, q') /\ p = mkp 7 [1%Z] true) /\
+  (exists q', levels_completed q' = 0 /\ qnext (init qexp) = (RStop, q')) /\
+  (exists q', 0 < levels_completed q' /\ qnext qd3 = (RStop, q')) /\
+  gen_next qinf qini qexp (GRunning 5) qd1 = (EGenStop, GDone, qd1).
+Proof.
+  split; [|split; [|split]].
+  - pose proof (triple_eta (gen_next qinf qini qexp (GRunning 0) qd1)) as E.
+    destruct (C16_do_level qinf qini qexp 0 qd1 _ _ _ E) as (_ & H). specialize (H eq_refl).
+    replace (fst (fst (gen_next qinf qini qexp (GRunning 0) qd1))) with (EPacket (mkp 7 [1%Z] true)) in H
+      by (vm_compute; reflexivity).
+    destruct H as (_ & H). eexists; eexists; split; [exact H|reflexivity].
+  - pose proof (triple_eta (gen_next qinf qini qexp (GRunning 0) (init qexp))) as E.
+    destruct (C16_do_level qinf qini qexp 0 (init qexp) _ _ _ E) as (_ & H). specialize (H eq_refl).
+    replace (fst (fst (gen_next qinf qini qexp (GRunning 0) (init qexp)))) with ENoMore in H
+      by (vm_compute; reflexivity).
+    destruct H as (_ & H1 & H2). eexists; split; [exact H1|exact H2].
+  - pose proof (triple_eta (gen_next qinf qini qexp (GRunning 0) qd3)) as E.
+    destruct (C16_do_level qinf qini qexp 0 qd3 _ _ _ E) as (_ & H). specialize (H eq_refl).
+    replace (fst (fst (gen_next qinf qini qexp (GRunning 0) qd3))) with EGenStop in H
+      by (vm_compute; reflexivity).
+    destruct H as (_ & H1 & H2). eexists; split; [exact H1|exact H2].
+  - pose proof (triple_eta (gen_next qinf qini qexp (GRunning 5) qd1)) as E.
+    destruct (C16_do_level qinf qini qexp 5 qd1 _ _ _ E) as (H & _).
+    destruct H as (H1 & H2 & H3); [vm_compute; discriminate|].
+    rewrite E. rewrite H1, H2, H3. reflexivity.
+Qed.
+
+(* C16_do_level_fresh_done is a closed statement that holds by unfolding gen_next (it says how the model
+   represents a fresh / a finished generator, so that C16_do_level covers them); it does discriminate
+   between the generator states: *)
+Example C16_do_level_fresh_done_nonvacuous :
+  fst (fst (gen_next qinf qini qexp GFresh qd1)) = EPacket (mkp 7 [1%Z] true) /\
+  fst (fst (gen_next qinf qini qexp GDone qd1)) = EGenStop /\
+  fst (fst (gen_next qinf qini qexp (GRunning 1) qd1)) = EGenStop /\
+  gen_next qinf qini qexp GFresh qd1 = gen_next qinf qini qexp (GRunning (levels_completed qd1)) qd1.
+Proof.
+  split; [vm_compute; reflexivity|]. split; [vm_compute; reflexivity|]. split; [vm_compute; reflexivity|].
+  exact (proj1 (C16_do_level_fresh_done qinf qini qexp qd1)).
+Qed.
+
 Print Assumptions C16_next_terminates.
 Print Assumptions C16_fuel_irrelevant.
 Print Assumptions C16_history_total.
